@@ -90,6 +90,11 @@ class Flows:
                    (b"alias.local", s.ip(1))]
         self.uas = [s.udp_ep(s.ip(21 + i), 5060) for i in range(3)]
         self.hops = [s.udp_ep(s.ip(31 + i), 5080) for i in range(3)]
+        for ep in self.uas + self.hops:            # every address a sent-by / received / rport combination can name
+            for port in (5060, 5080):
+                s.udp_ep(ep[0], port)
+        s.udp_ep(s.ip(1), 5099)                    # near misses: right host wrong port, foreign host right port
+        s.udp_ep(s.ip(3), 5060)
         self.tcphops = [s.tcp_ln(s.ip(35), 5090)] if o.get("tcphops", r.random() < 0.3) else []
         # static routes
         nr = o.get("routes", r.choice([0, 1, 2, 3]))
